@@ -23,6 +23,8 @@ func checkC03(w *World, r *Report) {
 	r.include("C03.future-", "C10.", "an error raised in a future's body reaches every catch around a deref unchanged and as an error", checkC10, func(rule string) bool {
 		return rule == "C10.redeposit" || rule == "C10.single-outcome"
 	})
+	errorIsRule(w, r, "C03.is")
+	droppedErrorRule(w, r, "C03.checked-first")
 	r.rule("C03.once", "the value of the try body and of the catch handler is returned / continued as a form exactly once: no result of an evaluating call flows back into the evaluator (shared with C01.once)")
 	r.rule("C03.finally-dom", "the finally evaluation is registered (defer) exactly once, outside any inner loop, in a block that dominates every exit of the try region reachable after the body has run")
 	r.rule("C03.finally-pure", "the deferred finally closure stores to no result variable of EVAL and discards the results of the body helper")
@@ -564,6 +566,12 @@ func ruleWrap(w *World, r *Report) {
 						r.add("C03.wrap", fn, fmt.Sprintf("fmt.Errorf(%q) operand %d", format, i), c.Pos(), "exempt", reason)
 						continue
 					}
+					// the same exemption by what the operand is rather than where it stands: the arity error the
+					// parameter binder has just created (through a helper's parameter: at every call site)
+					if binderErrorOnly(w, newEngine(w), a, 0) {
+						r.add("C03.wrap", fn, fmt.Sprintf("fmt.Errorf(%q) operand %d", format, i), c.Pos(), "exempt", exemptionsC03["lisp.EVAL | fmt.Errorf %s (around %s)"])
+						continue
+					}
 					r.check(v == 'w', "C03.wrap", fn, fmt.Sprintf("fmt.Errorf(%q) operand %d", format, i), c.Pos(), "%w", fmt.Sprintf("error operand formatted with %%%c: the original is no longer reachable with errors.Is", v))
 				}
 			}
@@ -908,8 +916,56 @@ func derivesFromErr(v, x ssa.Value, depth int) bool {
 				}
 			}
 		}
+		// a function of the module that positions or decorates the error it is given: every error it returns
+		// derives from its error parameter
+		if pi, ok := errDecorator(c); ok && pi < len(y.Call.Args) {
+			return derivesFromErr(y.Call.Args[pi], x, depth+1)
+		}
 	}
 	return false
+}
+
+var errDecoBusy = map[*ssa.Function]bool{}
+
+// errDecorator: fn is an unexported module function with one error parameter and one error result all of whose
+// returns derive from that parameter (it only positions / rewords the error). Returns the parameter's index.
+func errDecorator(fn *ssa.Function) (int, bool) {
+	if fn == nil || len(fn.Blocks) == 0 || !inModule(fn) || fn.Parent() != nil || fn.Object() == nil || fn.Object().Exported() || errDecoBusy[fn] {
+		return 0, false
+	}
+	res := fn.Signature.Results()
+	if res.Len() != 1 || !isErrorType(res.At(0).Type()) {
+		return 0, false
+	}
+	pi := -1
+	for i, p := range fn.Params {
+		if isErrorType(p.Type()) {
+			if pi >= 0 {
+				return 0, false
+			}
+			pi = i
+		}
+	}
+	if pi < 0 {
+		return 0, false
+	}
+	errDecoBusy[fn] = true
+	defer delete(errDecoBusy, fn)
+	n := 0
+	for _, b := range fn.Blocks {
+		if len(b.Instrs) == 0 || b == fn.Recover {
+			continue
+		}
+		ret, ok := b.Instrs[len(b.Instrs)-1].(*ssa.Return)
+		if !ok || len(ret.Results) != 1 {
+			continue
+		}
+		n++
+		if !derivesFromErr(resolveRet(ret.Results[0]), fn.Params[pi], 0) {
+			return 0, false
+		}
+	}
+	return pi, n > 0
 }
 
 // ---------------------------------------------------------------------------
@@ -1135,11 +1191,17 @@ func checkC12(w *World, r *Report) {
 				if !ok || !ci.Common().IsInvoke() || ci.Common().Method.Name() != "Set" {
 					continue
 				}
-				if c, ok := ci.Common().Args[1].(*ssa.Call); ok && c.Call.StaticCallee() != nil && c.Call.StaticCallee().Name() == "SetMacro" {
+				vals := m.valuesIn(ci.Common().Args[1], "defmacro", 0)
+				allMarked := len(vals) > 0
+				for _, v := range vals {
+					c, ok := v.(*ssa.Call)
 					// receiver of SetMacro is the evaluated value (asserted to MalFunc)
-					if cl.of(c.Call.Args[0]) == clsValue {
-						okSet = true
+					if !ok || c.Call.StaticCallee() == nil || c.Call.StaticCallee().Name() != "SetMacro" || cl.of(c.Call.Args[0]) != clsValue {
+						allMarked = false
 					}
+				}
+				if allMarked {
+					okSet = true
 				}
 			}
 		}
@@ -1313,6 +1375,37 @@ func checkC12(w *World, r *Report) {
 	}
 	aud.run()
 	r.floor("C12.post-expand", "guarded uses of the expanded form before the dispatch", r.count("C12.post-expand"), 3)
+	// every list form goes through macro expansion, whatever its head is called
+	r.rule("C12.expand-always", "the macro expansion at the top of the evaluation loop is on the path to every special-form region and to the application: no list form reaches the dispatch unexpanded (a macro bound to the name of a special form is a macro like any other: its call means its expansion)")
+	{
+		var mx *ssa.Call
+		for _, ec := range m.evalCalls() {
+			if ec.fn == m.EVAL && ec.callee == m.macroexpand && m.regionOf(ec.call.Block()) == "" && !m.defaultRegion[ec.call.Block()] && !m.stepBlocks[ec.call.Block()] {
+				mx = ec.call
+			}
+		}
+		if mx == nil {
+			r.bad("C12.expand-always", m.EVAL, "macro expansion before the dispatch", m.EVAL.Pos(), "no macroexpand call before the dispatch")
+		} else {
+			nreg := 0
+			for _, name := range m.regionNames {
+				for b := range m.regions[name] {
+					if !mx.Block().Dominates(b) {
+						nreg++
+						r.bad("C12.expand-always", m.EVAL, "special form "+name+" reachable without macro expansion", mx.Pos(), "the region of "+name+" can be entered on a path that skips the macroexpand call: a macro of that name visible in the caller's scope is ignored, so its call does not mean its expansion")
+						break
+					}
+				}
+			}
+			okApp := true
+			for b := range m.defaultRegion {
+				if !mx.Block().Dominates(b) {
+					okApp = false
+				}
+			}
+			r.check(okApp && nreg == 0, "C12.expand-always", m.EVAL, "macro expansion before the dispatch", mx.Pos(), fmt.Sprintf("dominates all %d special-form regions and the application", len(m.regionNames)), "the application can be reached without macro expansion")
+		}
+	}
 	// the expansion is evaluated, whatever kind of form it is
 	r.rule("C12.expansion-evaluated", "before the dispatch EVAL hands a form back as its own value only when that form is known to be a list (the empty list evaluates to itself): every other form a macro expands to - symbol, vector, hash-map, set - goes through eval_ast, so the call means what its expansion means")
 	{
@@ -1780,6 +1873,41 @@ func checkC18(w *World, r *Report) {
 		}
 	}
 	r.floor("C18.flags-private", "reads of stepping flags", nf, 3)
+	// where the stepper is looked at: at the top of an evaluation step and at the loop bottom, nowhere inside a form
+	r.rule("C18.stepper-reads", "the Stepper variable and the stepping flags are read only by the stepping code itself: in EVAL outside every special-form region (the prologue that calls the stepper, the loop bottom that decides how to continue), at the entry of the body helper, in code that already runs only under a stepper, and in the stepping helpers - never inside a special form or a closure of one, where a branch on them makes the form itself behave differently under a stepper")
+	{
+		isStepHelper := map[*ssa.Function]bool{}
+		for _, h := range m.stepHelpers {
+			isStepHelper[h] = true
+		}
+		var stepperG *ssa.Global
+		if mem, ok := m.EVAL.Pkg.Members["Stepper"].(*ssa.Global); ok {
+			stepperG = mem
+		}
+		nsr := 0
+		for _, fn := range m.evalFuncs() {
+			for _, b := range fn.Blocks {
+				for _, in := range b.Instrs {
+					ld, ok := in.(*ssa.UnOp)
+					if !ok || ld.Op != token.MUL {
+						continue
+					}
+					g, ok := ld.X.(*ssa.Global)
+					if !ok || !(m.flags[g] || (stepperG != nil && g == stepperG)) {
+						continue
+					}
+					nsr++
+					root := fn
+					for root.Parent() != nil {
+						root = root.Parent()
+					}
+					okPlace := m.stepBlocks[b] || isStepHelper[root] || (fn == m.EVAL && m.regionOf(b) == "" && !m.defaultRegion[b]) || (fn == m.EVAL && m.isLoopBottom(b)) || (m.isCore(fn) && b == fn.Blocks[0])
+					r.check(okPlace, "C18.stepper-reads", fn, "read of "+g.Name(), ld.Pos(), "in the stepping code of EVAL", "the stepper's presence (or a stepping flag) is consulted inside a special form"+nz(" ("+m.regionOf(b)+")", "")+": that form takes another path when a stepper is installed, so programs need not compute the same")
+				}
+			}
+		}
+		r.floor("C18.stepper-reads", "reads of Stepper and the stepping flags", nsr, 4)
+	}
 	// recur
 	nr := 0
 	for _, ec := range m.evalCalls() {
@@ -2245,6 +2373,10 @@ func canonForm(m *evalModel) string {
 		case *ssa.Field:
 			return find(x.X, depth+1)
 		case *ssa.TypeAssert:
+			// a0.(Symbol): a0 is element 0 of the form's list, however the list was obtained
+			if k := m.e.keyOf(x.X); k.Root != nil && strings.HasSuffix(k.Path, ".Val[0]") && strings.Count(k.Path, "[") == 1 {
+				return k.Root
+			}
 			// a0.(Symbol): a0 = *(&form.(List).Val[0])
 			if ld, ok := x.X.(*ssa.UnOp); ok {
 				if ia, ok := ld.X.(*ssa.IndexAddr); ok {
@@ -2457,6 +2589,9 @@ func carriesExistingError(v ssa.Value, depth int) bool {
 			}
 			return false
 		}
+		if pi, ok := errDecorator(c); ok && pi < len(y.Call.Args) {
+			return carriesExistingError(y.Call.Args[pi], depth+1)
+		}
 		return true
 	}
 	return true
@@ -2548,4 +2683,162 @@ func derefType(t types.Type) types.Type {
 		return p.Elem()
 	}
 	return t
+}
+
+// binderErrorOnly: v is, on every path and at every call site, the error result of the parameter binder
+// (env.NewSubordinateEnvWithBinds): an error created a moment ago that nobody else holds.
+func binderErrorOnly(w *World, e *Engine, v ssa.Value, depth int) bool {
+	binder := w.Fn("env", "NewSubordinateEnvWithBinds")
+	if binder == nil || depth > 4 {
+		return false
+	}
+	n := 0
+	for _, lf := range e.producers(unboxed(v), map[ssa.Value]bool{}, 0) {
+		n++
+		lf = unboxed(lf)
+		switch x := lf.(type) {
+		case *ssa.Extract:
+			c, ok := x.Tuple.(*ssa.Call)
+			if !ok || c.Call.StaticCallee() != binder || x.Index != 1 {
+				return false
+			}
+		case *ssa.Parameter:
+			fn := x.Parent()
+			if fn.Parent() != nil || fn.Object() == nil || fn.Object().Exported() {
+				return false
+			}
+			args := w.callSiteArgs(x)
+			if len(args) == 0 {
+				return false
+			}
+			for _, a := range args {
+				if !binderErrorOnly(w, e, a, depth+1) {
+					return false
+				}
+			}
+		default:
+			return false
+		}
+	}
+	return n > 0
+}
+
+// errorIsRule: errors.Is on a lisp error compares what was thrown, never how the error prints: the printed form
+// carries the position, and the evaluator re-positions an error at every call it crosses.
+func errorIsRule(w *World, r *Report, rule string) {
+	r.rule(rule, "LispError.Is decides by the thrown objects (ErrorValue() of both errors, or the object's own Is): it calls no Error() method, whose text includes the position the evaluator rewrites on the way up, so a sentinel stays reachable with errors.Is through any depth of calls")
+	is := w.Fn("lisperror", "(LispError).Is")
+	if is == nil {
+		r.undecided(rule, nil, "(LispError).Is", token.NoPos, "method no longer resolves")
+		return
+	}
+	n, cmp := 0, false
+	isEV := func(v ssa.Value) bool {
+		c, ok := unboxed(v).(*ssa.Call)
+		return ok && c.Call.StaticCallee() != nil && c.Call.StaticCallee().Name() == "ErrorValue"
+	}
+	for _, f := range w.withPkgHelpers(is) {
+		for _, b := range f.Blocks {
+			for _, in := range b.Instrs {
+				switch x := in.(type) {
+				case ssa.CallInstruction:
+					name := ""
+					if sc := x.Common().StaticCallee(); sc != nil {
+						name = sc.Name()
+					} else if x.Common().IsInvoke() {
+						name = x.Common().Method.Name()
+					}
+					if name == "Error" || name == "String" || name == "Sprint" || name == "Sprintf" {
+						n++
+						r.bad(rule, f, "text of an error used to decide Is", in.Pos(), "Is looks at how an error prints ("+name+"): the text of a lisp error starts with its position, which changes whenever the error crosses a call, so errors.Is stops finding a sentinel that ErrorValue still returns")
+					}
+				case *ssa.BinOp:
+					if x.Op == token.EQL && isEV(x.X) && isEV(x.Y) {
+						cmp = true
+					}
+				}
+			}
+		}
+	}
+	n++
+	r.check(cmp, rule, is, "comparison of the thrown objects", is.Pos(), "ErrorValue() == ErrorValue()", "Is never compares the two errors' thrown objects")
+	r.floor(rule, "decisions of LispError.Is", n, 1)
+}
+
+// droppedErrorRule: between a call that can fail and the test of its error nothing answers "success": a return
+// with a nil error that comes after the call is only reached through the no-error edge of a test of that call's
+// error. (A success return placed before the test hides the failure from every catch and from the Go caller.)
+func droppedErrorRule(w *World, r *Report, rule string) {
+	r.rule(rule, "in the runtime packages, a return that reports success after a call whose error result is bound to a variable lies behind the no-error edge of a test of that error: no path answers success while an error the callee returned is still unexamined (the thrown value would reach neither the nearest catch nor the Go caller)")
+	n := 0
+	for _, fn := range w.Funcs {
+		if isTestFunc(w, fn) || !runtimePkg(fnPkgPath(fn)) || len(fn.Blocks) == 0 {
+			continue
+		}
+		ei := hasErrorResult(fn)
+		if ei < 0 {
+			continue
+		}
+		for _, b := range fn.Blocks {
+			for _, in := range b.Instrs {
+				c, ok := in.(*ssa.Call)
+				if !ok {
+					continue
+				}
+				callee := c.Call.StaticCallee()
+				if callee == nil || !inModule(callee) || hasErrorResult(callee) < 0 || callee.Signature.Results().Len() < 2 {
+					continue
+				}
+				errEx := extractOf(c, hasErrorResult(callee))
+				if errEx == nil {
+					continue // the call's results are returned as they are, or the error is not bound
+				}
+				// tests of that error
+				var tests []*ssa.BasicBlock
+				nilEdge := map[*ssa.BasicBlock]int{}
+				for _, d := range fn.Blocks {
+					iff := blockIf(d)
+					if iff == nil {
+						continue
+					}
+					bo, ok := iff.Cond.(*ssa.BinOp)
+					if !ok || !isNilConst(bo.Y) || bo.X != ssa.Value(errEx) {
+						continue
+					}
+					switch bo.Op {
+					case token.NEQ:
+						tests = append(tests, d)
+						nilEdge[d] = 1
+					case token.EQL:
+						tests = append(tests, d)
+						nilEdge[d] = 0
+					}
+				}
+				if len(tests) == 0 {
+					continue // handled in other ways (returned, stored, passed on): other rules
+				}
+				for _, rb := range fn.Blocks {
+					if len(rb.Instrs) == 0 || rb == fn.Recover {
+						continue
+					}
+					ret, ok := rb.Instrs[len(rb.Instrs)-1].(*ssa.Return)
+					if !ok || ei >= len(ret.Results) || !isNilConst(resolveRet(ret.Results[ei])) {
+						continue
+					}
+					if !(c.Block() == rb || c.Block().Dominates(rb)) {
+						continue
+					}
+					n++
+					behind := false
+					for _, d := range tests {
+						if edgeDominates(d, nilEdge[d], rb) {
+							behind = true
+						}
+					}
+					r.check(behind, rule, fn, "success reported after "+callee.Name()+" may have failed", ret.Pos(), "behind the no-error edge of the test of its error", "this return reports success on a path on which the error returned by "+callee.Name()+" has not been examined yet: when the callee failed (a throw inside an update function, say) the failure is swallowed and the program carries on")
+				}
+			}
+		}
+	}
+	r.floor(rule, "success returns after fallible calls", n, 20)
 }
